@@ -108,7 +108,7 @@ Definition execute (e : eval) (obj : hostval) : opres * eval :=
 
 Definition step (e : eval) (x : op) : opres * eval :=
   match x with
-  | OSetVar name v => (RUnit, mkEval (escript e) (efns e) (env_set (eenv e) name v) (ectx e) (emachine e))
+  | OSetVar name v => (RUnit, mkEval (escript e) (efns e) (env_set (eenv e) (trim_dollar name) v) (ectx e) (emachine e))
   | OAddFn name k => (RUnit, mkEval (escript e) (fn_set name (FHost k) (efns e)) (eenv e) (ectx e) (emachine e))
   | OCtx d => (RUnit, mkEval (escript e) (efns e) (eenv e) d (emachine e))
   | OPrepare optimize =>
@@ -126,7 +126,7 @@ Definition step (e : eval) (x : op) : opres * eval :=
           (RRun c (match c with ROk => truthy v | _ => false end) tr vars ns rs, e')
       | r => r
       end
-  | OGetVar name => (RGet (match env_get (eenv e) name with Some v => v | None => VNull end), e)
+  | OGetVar name => (RGet (match env_get (eenv e) (trim_dollar name) with Some v => v | None => VNull end), e)
   | ODump => (RUnit, e)       (* prints; an error (not a panic) when nothing was prepared *)
   end.
 
